@@ -803,6 +803,25 @@ class Interp:
                 if "property" in m.decorators:
                     return self.call_function(m, [o], {}, node)
                 return BoundMethod(o, m)
+            if not self.exact_class(o) and attr in ("value", "_value", "power", "coefficients") and not self.path.guards:
+                # whether the attribute exists (and what reading it does) depends on the dynamic class: Constant.value is a
+                # stored number, Parameter.value reads the parameter's current value, other nodes have no such attribute
+                own, below = self.schema.attr_owners(o, attr)
+                if own and len(own) < len(below):
+                    K = self.schema.kinds
+                    if not self.path.branch(K.is_any(o.ref, own), f"class of {o.ref} has attribute {attr}"):
+                        self.raise_exc("AttributeError", attr)
+                    if len(own) <= 4:
+                        done = False
+                        for cand in own[:-1]:
+                            if self.path.branch(K.is_kind(o.ref, cand), f"class of {o.ref} is {cand}"):
+                                self.schema.learn_kind(self, o.ref, cand)
+                                done = True
+                                break
+                        if not done:
+                            self.path.assume(K.is_kind(o.ref, own[-1]))
+                            self.schema.learn_kind(self, o.ref, own[-1])
+                        return self.getattr(o, attr, node)
             if self.schema.has_field(o, attr):
                 return self.schema.read_field(self, o, attr)
             ca = self.src.find_class_attr(cls, attr)
